@@ -96,8 +96,9 @@ def _deliver(pairs, dl):
 class SchedPool:
     """multiprocessing.Pool look-alike"""
 
-    def __init__(self, *a, **k):
-        pass
+    def __init__(self, processes=None, *a, **k):
+        # look like a real pool to code that asks for its size
+        self._processes = processes or (os.cpu_count() or 1)
 
     def __enter__(self):
         return self
